@@ -10,8 +10,9 @@ CONSTANTS
   Sizes = {3, 4, 5}
   Pads = {0, 1, 2, 3, 4, 5, 6, 7}
   Props = {0, 77, 84}
-  CtlFroms = {2, 4, 6, 9, 14, 20}
-  CtlSizes = {1, 3}
+  CtlFroms = {2, 4, 9, 14}
+  MemSizes = {1, 3, 0}
+  LockBits = {1, 7, 9, 12, 15, 0}
   CtlTypes = {1, 2}
   TwoCtl = TRUE
   OldLens = {0, 1, 5, 9}
